@@ -21,6 +21,7 @@ import (
 	"encoding/json"
 	"fmt"
 	"math/big"
+	"net/url"
 	"os"
 	"reflect"
 	"sort"
@@ -143,90 +144,94 @@ func c02BuildHeader(set, alg, kid string, nb64 bool, pubKey *jwk.Key) c02Hdr {
 		})
 	}
 	var crit []string
-	switch set {
-	case "typ":
-		h.SetType("JOSE+JSON")
-		w["typ"] = vf.Str("JOSE+JSON")
-		checks = append(checks, func(g *jws.Header) string {
-			if g.Type() != "JOSE+JSON" {
-				return "typ"
+	for _, part := range strings.Split(set, "+") {
+		switch part {
+		case "typ":
+			h.SetType("JOSE+JSON")
+			w["typ"] = vf.Str("JOSE+JSON")
+			checks = append(checks, func(g *jws.Header) string {
+				if g.Type() != "JOSE+JSON" {
+					return "typ"
+				}
+				return ""
+			})
+		case "cty":
+			h.SetContentType("text/plain; charset=utf-8")
+			w["cty"] = vf.Str("text/plain; charset=utf-8")
+			checks = append(checks, func(g *jws.Header) string {
+				if g.ContentType() != "text/plain; charset=utf-8" {
+					return "cty"
+				}
+				return ""
+			})
+		case "crit":
+			h.SetCritical([]string{"b64", "b64"})
+			crit = c02SortedUnique([]string{"b64", "b64"})
+			if !nb64 {
+				h.Raw["b64"] = true
+				raw["b64"] = true
 			}
-			return ""
-		})
-	case "cty":
-		h.SetContentType("text/plain; charset=utf-8")
-		w["cty"] = vf.Str("text/plain; charset=utf-8")
-		checks = append(checks, func(g *jws.Header) string {
-			if g.ContentType() != "text/plain; charset=utf-8" {
-				return "cty"
-			}
-			return ""
-		})
-	case "crit":
-		h.SetCritical([]string{"b64", "b64"})
-		crit = c02SortedUnique([]string{"b64", "b64"})
-		if !nb64 {
-			h.Raw["b64"] = true
-			raw["b64"] = true
+			checks = append(checks, func(g *jws.Header) string {
+				if !reflect.DeepEqual(g.Critical(), []string{"b64"}) {
+					return "crit"
+				}
+				return ""
+			})
+		case "jwk":
+			h.SetJWK(pubKey)
+			kj, _ := pubKey.MarshalJSON()
+			m, _ := DecodeJSONMap(kj)
+			w["jwk"] = vf.FromJSON(m)
+			checks = append(checks, func(g *jws.Header) string {
+				if g.JWK() == nil {
+					return "jwk"
+				}
+				gj, _ := g.JWK().MarshalJSON()
+				if !bytes.Equal(gj, kj) {
+					return "jwk"
+				}
+				return ""
+			})
+		case "x5c":
+			cert, _ := x509.ParseCertificate(c02Cert())
+			h.SetX509CertificateChain([]*x509.Certificate{cert})
+			w["x5c"] = vf.Arr(vf.Bytes(c02Cert()))
+			checks = append(checks, func(g *jws.Header) string {
+				if len(g.X509CertificateChain()) != 1 || !bytes.Equal(g.X509CertificateChain()[0].Raw, c02Cert()) {
+					return "x5c"
+				}
+				s1 := sha1.Sum(c02Cert())
+				s256 := sha256.Sum256(c02Cert())
+				if !bytes.Equal(g.X509CertificateSHA1(), s1[:]) || !bytes.Equal(g.X509CertificateSHA256(), s256[:]) {
+					return "x5t"
+				}
+				return ""
+			})
+		case "bighdr": // a header of more than 64 KiB
+			big := strings.Repeat("0123456789abcdef", 4200)
+			h.Raw["x-big"] = big
+			raw["x-big"] = big
+			checks = append(checks, func(g *jws.Header) string {
+				if g.Raw["x-big"] != big {
+					return "x-big"
+				}
+				return ""
+			})
+		case "unreg":
+			v := map[string]any{"a": []any{json.Number("1"), "two", nil, true}, "ü": "ñ"}
+			h.Raw["x-unregistered"] = v
+			h.Raw["http://example.com/p"] = "q"
+			raw["x-unregistered"] = v
+			raw["http://example.com/p"] = "q"
+			checks = append(checks, func(g *jws.Header) string {
+				if !vf.FromJSON(g.Raw["x-unregistered"]).Equal(vf.FromJSON(v)) || g.Raw["http://example.com/p"] != "q" {
+					return "unregistered"
+				}
+				return ""
+			})
+		default:
+			c02StructHeader(part, h, w, &checks)
 		}
-		checks = append(checks, func(g *jws.Header) string {
-			if !reflect.DeepEqual(g.Critical(), []string{"b64"}) {
-				return "crit"
-			}
-			return ""
-		})
-	case "jwk":
-		h.SetJWK(pubKey)
-		kj, _ := pubKey.MarshalJSON()
-		m, _ := DecodeJSONMap(kj)
-		w["jwk"] = vf.FromJSON(m)
-		checks = append(checks, func(g *jws.Header) string {
-			if g.JWK() == nil {
-				return "jwk"
-			}
-			gj, _ := g.JWK().MarshalJSON()
-			if !bytes.Equal(gj, kj) {
-				return "jwk"
-			}
-			return ""
-		})
-	case "x5c":
-		cert, _ := x509.ParseCertificate(c02Cert())
-		h.SetX509CertificateChain([]*x509.Certificate{cert})
-		w["x5c"] = vf.Arr(vf.Bytes(c02Cert()))
-		checks = append(checks, func(g *jws.Header) string {
-			if len(g.X509CertificateChain()) != 1 || !bytes.Equal(g.X509CertificateChain()[0].Raw, c02Cert()) {
-				return "x5c"
-			}
-			s1 := sha1.Sum(c02Cert())
-			s256 := sha256.Sum256(c02Cert())
-			if !bytes.Equal(g.X509CertificateSHA1(), s1[:]) || !bytes.Equal(g.X509CertificateSHA256(), s256[:]) {
-				return "x5t"
-			}
-			return ""
-		})
-	case "bighdr": // a header of more than 64 KiB
-		big := strings.Repeat("0123456789abcdef", 4200)
-		h.Raw["x-big"] = big
-		raw["x-big"] = big
-		checks = append(checks, func(g *jws.Header) string {
-			if g.Raw["x-big"] != big {
-				return "x-big"
-			}
-			return ""
-		})
-	case "unreg":
-		v := map[string]any{"a": []any{json.Number("1"), "two", nil, true}, "ü": "ñ"}
-		h.Raw["x-unregistered"] = v
-		h.Raw["http://example.com/p"] = "q"
-		raw["x-unregistered"] = v
-		raw["http://example.com/p"] = "q"
-		checks = append(checks, func(g *jws.Header) string {
-			if !vf.FromJSON(g.Raw["x-unregistered"]).Equal(vf.FromJSON(v)) || g.Raw["http://example.com/p"] != "q" {
-				return "unregistered"
-			}
-			return ""
-		})
 	}
 	if nb64 {
 		h.SetBase64(false)
@@ -267,6 +272,169 @@ func c02BuildHeader(set, alg, kid string, nb64 bool, pubKey *jwk.Key) c02Hdr {
 		}
 		return ""
 	}}
+}
+
+// c02Chain: certificate chains of 1, 2 and 3 certificates (leaf for a pool key issued by the test
+// CA of harness/props/c08_keys.go, a sibling leaf, the CA), made once.
+var (
+	c02ChainOnce sync.Once
+	c02ChainDER  [][]byte
+)
+
+func c02Chain(n int) [][]byte {
+	c02ChainOnce.Do(func() {
+		caKey, caCert := c08CA()
+		issue := func(serial int64, pub any) []byte {
+			tmpl := &x509.Certificate{SerialNumber: big.NewInt(serial), Subject: pkix.Name{CommonName: fmt.Sprintf("c02 leaf %d", serial)},
+				NotBefore: time.Unix(1700000000, 0), NotAfter: time.Unix(2000000000, 0)}
+			der, err := x509.CreateCertificate(vf.NewRand(uint64(0xC02C+serial)), tmpl, caCert, pub, caKey)
+			if err != nil {
+				panic(err)
+			}
+			return der
+		}
+		leaf := issue(11, &c01KeysOf("ec", "P-256", 0)[1].EC.PublicKey)
+		sib := issue(12, &c01KeysOf("rsa", "", 2048)[0].RSA.PublicKey)
+		c02ChainDER = [][]byte{leaf, sib, caCert.Raw}
+	})
+	switch n {
+	case 1:
+		return c02ChainDER[:1]
+	case 2:
+		return [][]byte{c02ChainDER[0], c02ChainDER[2]}
+	}
+	return c02ChainDER
+}
+
+// c02StructHeader sets one STRUCTURED registered header parameter through its setter, describes the
+// same header state for the model, and adds the check that the value comes back after the round trip.
+func c02StructHeader(part string, h *jws.Header, w map[string]vf.Wire, checks *[]func(*jws.Header) string) {
+	add := func(f func(*jws.Header) string) { *checks = append(*checks, f) }
+	setChain := func(n int) [][]byte {
+		ders := c02Chain(n)
+		var certs []*x509.Certificate
+		var ws []vf.Wire
+		for _, d := range ders {
+			c, err := x509.ParseCertificate(d)
+			if err != nil {
+				panic(err)
+			}
+			certs = append(certs, c)
+			ws = append(ws, vf.Bytes(d))
+		}
+		h.SetX509CertificateChain(certs)
+		w["x5c"] = vf.Wire{Kind: vf.KArr, Arr: ws}
+		add(func(g *jws.Header) string {
+			got := g.X509CertificateChain()
+			if len(got) != len(ders) {
+				return fmt.Sprintf("x5c (%d certificates instead of %d)", len(got), len(ders))
+			}
+			for i := range got {
+				if !bytes.Equal(got[i].Raw, ders[i]) {
+					return fmt.Sprintf("x5c[%d]", i)
+				}
+			}
+			s1 := sha1.Sum(ders[0])
+			s256 := sha256.Sum256(ders[0])
+			if !bytes.Equal(g.X509CertificateSHA1(), s1[:]) || !bytes.Equal(g.X509CertificateSHA256(), s256[:]) {
+				return "x5t / x5t#S256 are not those of x5c[0]"
+			}
+			return ""
+		})
+		return ders
+	}
+	setURL := func(which, text string) {
+		u, err := url.Parse(text)
+		if err != nil {
+			panic(err)
+		}
+		if which == "jku" {
+			h.SetJWKSetURL(u)
+		} else {
+			h.SetX509URL(u)
+		}
+		w[which] = vf.Str(u.String())
+		add(func(g *jws.Header) string {
+			got := g.JWKSetURL()
+			if which == "x5u" {
+				got = g.X509URL()
+			}
+			if got == nil || got.String() != u.String() {
+				return which
+			}
+			return ""
+		})
+	}
+	setJWK := func(kind, crv string, n int) {
+		ks := c01KeysOf(kind, crv, 0)
+		key, _ := c01GoatKey(c01KeyRef{Idx: ks[n%len(ks)].Idx, Variant: "pub"}).(*jwk.Key)
+		h.SetJWK(key)
+		kj, _ := key.MarshalJSON()
+		m, _ := DecodeJSONMap(kj)
+		w["jwk"] = vf.FromJSON(m)
+		add(func(g *jws.Header) string {
+			if g.JWK() == nil {
+				return "jwk"
+			}
+			gj, _ := g.JWK().MarshalJSON()
+			if !bytes.Equal(gj, kj) {
+				return "jwk (" + kind + " " + crv + ")"
+			}
+			return ""
+		})
+	}
+	switch part {
+	case "x5c1":
+		setChain(1)
+	case "x5c2":
+		setChain(2)
+	case "x5c3":
+		setChain(3)
+	case "x5t-explicit": // chain of two with both thumbprints given explicitly (those of x5c[0])
+		ders := setChain(2)
+		s1 := sha1.Sum(ders[0])
+		s256 := sha256.Sum256(ders[0])
+		h.SetX509CertificateSHA1(s1[:])
+		h.SetX509CertificateSHA256(s256[:])
+		w["x5t"], w["x5tS256"] = vf.Bytes(s1[:]), vf.Bytes(s256[:])
+	case "x5t-only": // thumbprints without a chain
+		s1 := sha1.Sum(c02Chain(1)[0])
+		s256 := sha256.Sum256(c02Chain(1)[0])
+		h.SetX509CertificateSHA1(s1[:])
+		h.SetX509CertificateSHA256(s256[:])
+		w["x5t"], w["x5tS256"] = vf.Bytes(s1[:]), vf.Bytes(s256[:])
+		add(func(g *jws.Header) string {
+			if !bytes.Equal(g.X509CertificateSHA1(), s1[:]) || !bytes.Equal(g.X509CertificateSHA256(), s256[:]) || len(g.X509CertificateChain()) != 0 {
+				return "x5t / x5t#S256"
+			}
+			return ""
+		})
+	case "jwk-rsa":
+		setJWK("rsa", "", 0)
+	case "jwk-p256":
+		setJWK("ec", "P-256", 0)
+	case "jwk-p384":
+		setJWK("ec", "P-384", 1)
+	case "jwk-p521":
+		setJWK("ec", "P-521", 0)
+	case "jwk-k1":
+		setJWK("ec", "secp256k1", 1)
+	case "jwk-ed25519":
+		setJWK("ed25519", "", 0)
+	case "jwk-ed448":
+		setJWK("ed448", "", 1)
+	case "jku":
+		setURL("jku", "https://user:p%40ss@[2001:db8::1]:8443/a/b/../%7Ekeys/jwks.json?x=1&y=%20z&x=2#frag")
+	case "jku2":
+		setURL("jku", "HTTPS://EXAMPLE.com./keys;v=1/set%2Fone")
+	case "x5u":
+		setURL("x5u", "urn:example:certs:leaf-11")
+	case "x5u2":
+		setURL("x5u", "//cdn.example.net/c%C3%A9rt.pem?")
+	case "plain", "", "kid":
+	default:
+		panic("c02: unknown header set " + part)
+	}
 }
 
 type c02Signer struct {
@@ -317,6 +485,12 @@ func c02Exec(c *vf.Ctx, d *vf.Driver, cs c02Case) {
 		set := cs.Hdr
 		if i > 0 {
 			set = "plain"
+			if cs.Hdr == "mix" || strings.HasPrefix(cs.Hdr, "unprot-struct") || strings.HasPrefix(cs.Hdr, "x5") {
+				// several signers with HETEROGENEOUS structured headers
+				set = c02StructSets[(cs.KeyN+3*i)%len(c02StructSets)]
+			}
+		} else if cs.Hdr == "mix" {
+			set = "x5c3+jwk-rsa+jku2+x5u2+cty"
 		}
 		s := c02Signer{alg: a.Name, key: k}
 		palg := a.Name
@@ -329,6 +503,14 @@ func c02Exec(c *vf.Ctx, d *vf.Driver, cs c02Case) {
 			u := c02BuildHeader("plain", a.Name, "", false, pub)
 			s.unprot = &u
 			palg, set = "", "plain"
+		case "unprot-struct": // structured parameters in the UNPROTECTED header
+			u := c02BuildHeader("x5c2+jwk-p256+jku+typ", "", "", false, pub)
+			s.unprot = &u
+			set = "plain"
+		case "unprot-struct2":
+			u := c02BuildHeader("x5t-explicit+jwk-ed448+x5u", "", "", false, pub)
+			s.unprot = &u
+			set = "x5c3"
 		}
 		s.prot = c02BuildHeader(set, palg, kid, cs.NB64 != cs.Mismatch, pub)
 		sk, _ := c01GoatSigningKey(a.Name, false, c01KeyRef{Idx: k.Idx, Variant: "priv"})
@@ -727,6 +909,10 @@ func c02RecordedSigs(cs c02Case, data []byte, signers []c02Signer) map[string][]
 	return out
 }
 
+// header sets with STRUCTURED registered parameters (each alone; combinations via "mix")
+var c02StructSets = []string{"x5c1", "x5c2", "x5c3", "x5t-explicit", "x5t-only", "jwk-rsa", "jwk-p256", "jwk-p384",
+	"jwk-p521", "jwk-k1", "jwk-ed25519", "jwk-ed448", "jku", "jku2", "x5u", "x5u2"}
+
 func c02Grid(c *vf.Ctx) []c02Case {
 	var grid []c02Case
 	type fm struct {
@@ -750,6 +936,24 @@ func c02Grid(c *vf.Ctx) []c02Case {
 					n++
 					grid = append(grid, c02Case{Alg: a.Name, Form: f.form, NB64: f.nb64, Payload: p, Hdr: h, KeyN: n, Seed: uint64(n)})
 				}
+			}
+		}
+	}
+	// every structured registered header parameter, protected and unprotected, every serialisation,
+	// every algorithm; several signers get heterogeneous structured headers
+	structSets := append(append([]string{}, c02StructSets...), "mix", "unprot-struct", "unprot-struct2")
+	for _, a := range c01RealAlgs() {
+		for _, f := range forms {
+			for _, hset := range structSets {
+				if strings.HasPrefix(hset, "unprot-struct") && (f.form == "compact" || f.form == "jwt") {
+					continue
+				}
+				n++
+				p := []string{"ascii", "dot", "nonascii"}[n%3]
+				if f.form == "jwt" {
+					p = "ascii"
+				}
+				grid = append(grid, c02Case{Alg: a.Name, Form: f.form, NB64: f.nb64, Payload: p, Hdr: hset, KeyN: n, Seed: uint64(n)})
 			}
 		}
 	}
